@@ -133,7 +133,9 @@ def run(ctx, replay=None):
     for s in srcs:
         if s["id"] == "io":
             s["path"] = c08.make_io_xml(ctx, "sym")
-        for flags, cfg in ([rng.choice([(1, ["filter 0 -1 0"]), (0, []), (9, ["filter 0 -1 0"])])] if not thorough else [(1, ["filter 0 -1 0"]), (0, []), (8, ["filter 0 -4 3"]), (9, ["filter 0 -1 2"])]):
+        # quick: every source is taken once with every type kept (what a default load filters out - I/O, Misc, instruction caches - must survive
+        # the round trip too), every third one also with the default filters
+        for flags, cfg in ([((1, 9)[k % 2], ["filter 0 -1 0"])] + ([(0, [])] if k % 3 == 0 else []) if not thorough else [(1, ["filter 0 -1 0"]), (0, []), (8, ["filter 0 -4 3"]), (9, ["filter 0 -1 2"])]):
             lines = (["reset 2", "option stores 1"] + nosupport(flags) + corpus.env_lines(s) + ["init 0"] + corpus.source_lines(s) + cfg
                      + ["flags 0 %d" % flags, "load 0"] + matrix(ctx, rng, "c", flags, thorough, k, ncomb=1))
             k += 1
